@@ -1,15 +1,14 @@
-(* C07 — Re-applying is a fixed point and no-op signalling is exact.  Statements only. *)
+(* C07 — Re-applying is a fixed point and no-op signalling is exact.  Statements only;
+   proof in Proofs/NoopLaws.v.  The fixed-point clauses (re-apply, extract-and-apply-
+   back) are decided on the implementation's outcomes by the extracted checkers. *)
 From Coq Require Import List ZArith String Bool.
-From SMD Require Import Model.Value Model.Order Model.PathSet Model.Updater.
+From SMD Require Import Model.Value Model.Order Model.PathSet Model.Updater Proofs.NoopLaws.
 Import ListNotations.
 
 (* Apply returns no object exactly when the object it computed equals the live object
    (value equality), unless the updater is configured to always return its result.
    [pruned] is the object computed by merge and prune, exposed through the updater
-   built with ReturnInputOnNoop. *)
-Definition with_return_input (c : config) : config :=
-  mkConfig (cfg_schema c) (cfg_convert c) (cfg_ignored_fields c) (cfg_ignore_filter c) true (cfg_version_order c).
-
+   built with ReturnInputOnNoop ([with_return_input]); ownership is the same. *)
 Theorem C07_noop_signal_exact : forall c live cfg ver mf mgr force o mf',
   cfg_return_input_on_noop c = false ->
   apply_op c live cfg ver mf mgr force = UOk (o, mf') ->
@@ -17,28 +16,5 @@ Theorem C07_noop_signal_exact : forall c live cfg ver mf mgr force o mf',
     apply_op (with_return_input c) live cfg ver mf mgr force = UOk (Some pruned, mf') /\
     (o = None <-> veqb (snd live) (snd pruned) = true) /\
     (o <> None -> o = Some pruned).
-Proof.
-  intros c live cfg ver mf mgr force o mf' Hflag H.
-  unfold apply_op in *. simpl.
-  change (cfg_schema (with_return_input c)) with (cfg_schema c) in *.
-  destruct (reconcile_managed c 0 live mf) as [[mf0 n0]|e] eqn:Hrec.
-  2: discriminate.
-  assert (Hrec' : reconcile_managed (with_return_input c) 0 live mf = UOk (mf0, n0)) by exact Hrec.
-  rewrite Hrec'.
-  unfold schema_of, tr_of in *. simpl.
-  destruct (Merge.merge (fst (cfg_schema c (fst live))) (snd (cfg_schema c (fst live))) (snd live) (snd cfg)) as [[nv|]|]; try discriminate.
-  unfold to_fs, schema_of, tr_of in *. simpl.
-  destruct (FieldSet.to_field_set (fst (cfg_schema c (fst cfg))) (snd (cfg_schema c (fst cfg))) (snd cfg)) as [set0|]; try discriminate.
-  change (ignore_filter_for (with_return_input c) ver) with (ignore_filter_for c ver).
-  destruct (ignore_filter_for c ver) as [f|]; try discriminate.
-  change (prune (with_return_input c)) with (prune c).
-  destruct (prune c n0 (fst live, nv) (mf_set mgr {| mr_set := filter_set f set0; mr_ver := ver; mr_applied := true |} mf0) mgr (mf_get mgr mf0)) as [[pruned n1]|e]; try discriminate.
-  change (update_core (with_return_input c)) with (update_core c).
-  destruct (update_core c n1 live pruned ver (mf_set mgr {| mr_set := filter_set f set0; mr_ver := ver; mr_applied := true |} mf0) mgr force) as [[[mf2 cmp] n2]|e]; try discriminate.
-  rewrite Hflag in H. simpl in H.
-  exists pruned.
-  destruct (veqb (snd live) (snd pruned)) eqn:Heq; inversion H; subst; simpl.
-  - split; [reflexivity|]. split; [tauto|]. intros Hn; exfalso; apply Hn; reflexivity.
-  - split; [reflexivity|]. split; [split; discriminate|]. intros _; reflexivity.
-Qed.
+Proof. exact noop_signal_exact. Qed.
 Print Assumptions C07_noop_signal_exact.
